@@ -36,11 +36,11 @@ func TestMain(m *testing.M) {
 type world struct {
 	persist bool   // the server keeps an append-only log and the history may restart it
 	dir     string // data directory (persist only)
-	s     *sut.Server
-	conns []*sut.Conn
-	sel   []int // selected db per actor: 0,1 = TCP, 2 = embedded
-	e     *engine.Engine
-	embDB int
+	s       *sut.Server
+	conns   []*sut.Conn
+	sel     []int // selected db per actor: 0,1 = TCP, 2 = embedded
+	e       *engine.Engine
+	embDB   int
 }
 
 func newWorld(t interface{ Fatalf(string, ...any) }, persist bool) *world {
